@@ -10,10 +10,10 @@ use happylock::mutex::{Mutex, MutexRef};
 use happylock::poisonable::{PoisonRef, PoisonResult, Poisonable};
 use happylock::rwlock::{RwLock, RwLockReadRef, RwLockWriteRef};
 
-use crate::vraw::{VMutex, VRw};
+use crate::vraw::{VMutex, VRw, Val};
 
-pub type M = Mutex<u64, VMutex>;
-pub type R = RwLock<u64, VRw>;
+pub type M = Mutex<Val, VMutex>;
+pub type R = RwLock<Val, VRw>;
 
 pub enum Node {
 	M(&'static M),
@@ -27,15 +27,15 @@ pub enum Node {
 }
 
 pub enum NodeGuard<'g> {
-	M(MutexRef<'g, u64, VMutex>),
-	R(RwLockWriteRef<'g, u64, VRw>),
+	M(MutexRef<'g, Val, VMutex>),
+	R(RwLockWriteRef<'g, Val, VRw>),
 	V(Box<[NodeGuard<'g>]>),
 	P(Box<PoisonResult<PoisonRef<'g, NodeGuard<'g>>>>),
 	C(Box<NodeGuard<'g>>),
 }
 
 pub enum NodeRGuard<'g> {
-	R(RwLockReadRef<'g, u64, VRw>),
+	R(RwLockReadRef<'g, Val, VRw>),
 	V(Box<[NodeRGuard<'g>]>),
 	P(Box<PoisonResult<PoisonRef<'g, NodeRGuard<'g>>>>),
 	C(Box<NodeRGuard<'g>>),
@@ -93,8 +93,8 @@ unsafe impl Lockable for Node {
 
 	unsafe fn data_mut(&self) -> NodeData<'_> {
 		match self {
-			Node::M(m) => NodeData::L(m.data_mut()),
-			Node::R(r) => NodeData::L(r.data_mut()),
+			Node::M(m) => NodeData::L(&mut m.data_mut().0),
+			Node::R(r) => NodeData::L(&mut r.data_mut().0),
 			Node::V(v) => NodeData::V(v.data_mut()),
 			Node::P(p) => NodeData::P(Box::new(p.data_mut())),
 			Node::B(c) => NodeData::C(Box::new(c.data_mut())),
@@ -131,7 +131,7 @@ unsafe impl Sharable for Node {
 	unsafe fn data_ref(&self) -> NodeRData<'_> {
 		match self {
 			Node::M(_) => unreachable!("Mutex is not Sharable; the generators never read-lock it"),
-			Node::R(r) => NodeRData::L(r.data_ref()),
+			Node::R(r) => NodeRData::L(&r.data_ref().0),
 			Node::V(v) => NodeRData::V(v.data_ref()),
 			Node::P(p) => NodeRData::P(Box::new(p.data_ref())),
 			Node::B(c) => NodeRData::C(Box::new(c.data_ref())),
@@ -253,8 +253,8 @@ impl std::fmt::Debug for Node {
 impl<'g> NodeGuard<'g> {
 	pub fn leaves<'a>(&'a mut self, out: &mut Vec<&'a mut u64>) {
 		match self {
-			NodeGuard::M(g) => out.push(&mut **g),
-			NodeGuard::R(g) => out.push(&mut **g),
+			NodeGuard::M(g) => out.push(&mut (**g).0),
+			NodeGuard::R(g) => out.push(&mut (**g).0),
 			NodeGuard::V(v) => v.iter_mut().for_each(|g| g.leaves(out)),
 			NodeGuard::P(p) => match &mut **p {
 				Ok(r) => r.leaves(out),
@@ -267,7 +267,7 @@ impl<'g> NodeGuard<'g> {
 impl<'g> NodeRGuard<'g> {
 	pub fn leaves<'a>(&'a self, out: &mut Vec<&'a u64>) {
 		match self {
-			NodeRGuard::R(g) => out.push(&**g),
+			NodeRGuard::R(g) => out.push(&(**g).0),
 			NodeRGuard::V(v) => v.iter().for_each(|g| g.leaves(out)),
 			NodeRGuard::P(p) => match &**p {
 				Ok(r) => r.leaves(out),
